@@ -2,6 +2,9 @@
 # regenerate quick-tier evidence for all 20 checks, the manifest, and validate everything against the schemas
 cd /verif
 rc_all=0
+# MANIFEST.setup_cmd first: if it fails nothing else is run by the harness
+/venv/bin/python sa/selftest.py --engine || { echo "SETUP_CMD FAILS"; exit 3; }
+/venv/bin/python sa/norm_examples.py > /dev/null || { echo "canonical-form examples fail"; exit 3; }
 for i in $(seq -w 1 20); do /venv/bin/python sa/check.py C$i > /tmp/final_C$i.txt 2>&1; rc=$?; echo -n "C$i=$rc "; [ $rc -ne 0 ] && rc_all=1; done; echo
 /venv/bin/python gen_manifest.py
 python3-vt - <<'PY'
